@@ -126,6 +126,13 @@ def run(tier, seed, rng):
     for i, s in enumerate(picks):
         va, vb = [('A', 'A'), ('A', 'C'), ('A', 'A4'), ('A', 'Ale'), ('Dal', 'Dfx'), (P1, P2), (Q2, Q1)][i % 7]
         sched.append((va, vb, s, i % 2 == 0, ['', 'C', 'A'][i % 3 if i % 5 else 0]))
+    # classes that generate ONE direction only (the generated module of a pack-only class has no unpack half, and the other way
+    # round), overtaken by another definition right after their rename into place -- the reload finds somebody else's module
+    for va, vb in (('Anu', 'C'), ('Cnu', 'A'), ('Anp', 'C'), ('Cnp', 'A'), ('A', 'Cnu'), ('Anu', 'Cnp')):
+        for k in (6, 7, 8):
+            for pre in ('', 'C', 'A4'):
+                sched.append((va, vb, [0] * k + [1] * L + [0] * L, (k + len(pre)) % 2 == 0, pre))
+                sched.append((va, vb, [1] * k + [0] * L + [1] * L, (k + len(pre)) % 2 == 1, pre))
     with ThreadPoolExecutor(max_workers=max(2, NPROC // 2)) as ex:
         sres = list(ex.map(scheduled, sched))
     seen = set()
